@@ -136,8 +136,10 @@ def cmd_run(a):
                         w = json.load(open(fails[0]))
                         w["detail"] = f"regression input: shrunk witness of seeded change {meta['id']} ({meta.get('needs', '')})"
                         dest = os.path.join(ROOT, "replays", f"{p}-seed-{meta['id'].split('-', 1)[1]}.json")
-                        json.dump(w, open(dest, "w"), indent=1)
-                        print("   witness ->", dest)
+                        if not os.path.exists(dest) and not info.startswith("VIOLATION property=%s replay=replays/" % p):
+                            # (a catch through an already committed regression input needs no further witness)
+                            json.dump(w, open(dest, "w"), indent=1)
+                            print("   witness ->", dest)
             if res.get(meta["property"]) != 1:
                 bad += 1
         finally:
